@@ -1544,21 +1544,45 @@ func (x *Exec) dropQuantified(pc *smt.Term) *smt.Term {
 // evaluating operand(p) give the same value, the same calls and the same heap.
 func (x *Exec) checkAlias(sp *spec.FuncSpec, par *Frame, r exitRec, p *ssa.Parameter, n int) {
 	B := x.B
-	var exprC *spec.Clause
+	// the clause that applies on this path: the first "closure expr E if cond" whose condition (over
+	// the compile function's values at the return) holds, or an unconditional one
+	var e spec.Expr
 	for _, c := range sp.Of("closure") {
-		if w := strings.Fields(c.Text); len(w) > 0 && w[0] == "expr" {
-			exprC = c
+		w := strings.Fields(c.Text)
+		if len(w) == 0 || w[0] != "expr" {
+			continue
 		}
+		txt := strings.TrimSpace(strings.TrimPrefix(strings.TrimSpace(c.Text), "expr"))
+		if k := strings.LastIndex(txt, " if "); k >= 0 {
+			ce, err := spec.ParseExpr(txt[k+4:])
+			if err != nil {
+				specErr("%v", err)
+			}
+			sc, si := par.cur, par.curIdx
+			par.cur, par.curIdx = nil, 0
+			cond := x.simplifyUnder(r.st.PC, par.evalBool(ce, r.st, r.st))
+			par.cur, par.curIdx = sc, si
+			if !(cond.IsTrue() || (!cond.IsFalse() && x.entailed(x.dropQuantified(r.st.PC), cond))) {
+				continue
+			}
+			txt = txt[:k]
+		}
+		pe, err := spec.ParseExpr(txt)
+		if err != nil {
+			specErr("%v", err)
+		}
+		e = pe
+		break
 	}
-	if exprC == nil {
-		specErr("alias return of %s: the contract has no 'closure expr' clause", p.Name())
-	}
-	e, err := spec.ParseExpr(strings.TrimSpace(strings.TrimPrefix(strings.TrimSpace(exprC.Text), "expr")))
-	if err != nil {
-		specErr("%v", err)
+	if e == nil {
+		specErr("alias return of %s: no 'closure expr' clause of the contract applies on this path", p.Name())
 	}
 	aliasE, _ := spec.ParseExpr("operand(" + p.Name() + ")")
 	par.cur, par.curIdx = nil, 0
+	if r.blk != nil {
+		// locals of the compile function named by the clause are the ones in scope at this return
+		par.cur, par.curIdx = r.blk, len(r.blk.Instrs)-1
+	}
 	pv := TV{par.regs[p], p.Type()}
 	typ := par.selectField(pv, "Type", r.st)
 	kt := x.kindOfXType(par, typ, r.st)
@@ -1571,6 +1595,9 @@ func (x *Exec) checkAlias(sp *spec.FuncSpec, par *Frame, r exitRec, p *ssa.Param
 		facts, pins := propagate(create.PC)
 		if facts[-1] || create.PC.IsFalse() {
 			continue
+		}
+		if x.entailed(x.dropQuantified(create.PC), B.False()) {
+			continue // this kind cannot reach the return (decided by the solver)
 		}
 		x.prefix = QualName(par.fn)
 		x.sig = fmt.Sprintf("alias%d:%s,k=%s", n, p.Name(), kindNames[k])
@@ -1636,7 +1663,7 @@ func (x *Exec) checkAlias(sp *spec.FuncSpec, par *Frame, r exitRec, p *ssa.Param
 			x.NoObl--
 			goal := x.sameOutcome(exitRec{st: gotSt, results: []Value{got.V}}, []Value{want.V}, specSt)
 			goal = x.simplifyUnder(run.PC, goal)
-			x.oblige("alias", "returning "+p.Name()+" satisfies: "+exprC.Text, r.where, run, goal)
+			x.oblige("alias", "returning "+p.Name()+" satisfies: expr "+e.String(), r.where, run, goal)
 		}()
 	}
 }
